@@ -19,6 +19,19 @@
 (* Cells are 0 .. N*N-1, cell = y*N + x, y from south to north, x from     *)
 (* west to east (the order of the bytes on the wire).  The border value    *)
 (* of a cell is 0..3: bit 1 = west line, bit 2 = south line.               *)
+(*                                                                         *)
+(* Bugs selects the pinned tree's behaviour at two sites where it departs  *)
+(* from what the code says it means to do (Bugs = {} is the intended       *)
+(* design, on which all properties below hold without exception):          *)
+(*  P1  add_overlay_chunk compares the new bytes with a 2-dimensional      *)
+(*      memoryview of the old overlay, which never compares equal: every   *)
+(*      complete overlay, also an unchanged one, counts as a change (the   *)
+(*      map is marked dirty, parcels_downloaded is cleared, everything is  *)
+(*      asked for again).                                                  *)
+(*  P2  a request_all_parcels() that finishes after the overlay changed    *)
+(*      under it still sets parcels_downloaded and clears the dirty flag:  *)
+(*      request_dirty_parcels() then answers from a map with unknown       *)
+(*      parcels without asking.                                            *)
 (***************************************************************************)
 EXTENDS Naturals, Sequences, FiniteSets, TLC
 
